@@ -34,6 +34,10 @@ CHECKS = {
          'runtime monitor: strict row-sequence oracle against the input reference model', '5/C14'),
  'C15': ('exploration', 'pairs of runs differing only in syntax theme (or in a file name of the same kind) compared cell by cell: characters, widths, backgrounds, attributes, links identical; foreground may differ only inside syntax-marked style slots',
          'runtime monitor: relational cell-by-cell oracle over theme pairs and rename pairs', '5/C15'),
+ 'C16': ('exploration', 'grep result models serialised as coloured git grep output, plain text (unambiguous class only) and rg --json, delivered through stub git/rg and stdin with an impersonated parent; every hit compared for path, number, code, kind and highlighted submatch spans in both layouts',
+         'runtime monitor: reference result model vs tagged rows decoded by the terminal model', '5/C16'),
+ 'C17': ('exploration', 'blame stream models and real git blame output; per row code, number and attribution compared; the sequence of row colours checked against the three colour invariants (same commit same colour, neighbour with different commit different colour, reappearing commit keeps its colour unless it would collide)',
+         'runtime monitor: sequence invariants over row colours + per-row reference comparison', '5/C17'),
  'C18': ('fault_enumeration', 'EPIPE injected by an LD_PRELOAD write(2) shim at every write call 1..N of each case (stdout and pager mode), real closed pipes, stub pagers quitting early; exit status pass-through with stub git/rg/differ; pager selection lattice with recording stub pagers (bytes delivered, less arguments, LESSCHARSET); delta observed not to exit before the pager\'s last act',
          'runtime monitor: fault injection at every write call + recording stub pagers + exit-status oracle', '5/C18'),
  'C19': ('exploration', 'pairs of runs with hyperlinks off/on: OSC-8-stripped bytes identical; every link closed on its line; file and commit link targets recomputed independently from the input model and the displayed numbers',
